@@ -64,6 +64,8 @@ char *cfg_yylval = NULL;
 extern int  cfg_yylex(cfg_t *cfg);
 extern void cfg_yylex_destroy(void);
 extern int  cfg_lexer_include(cfg_t *cfg, const char *fname);
+extern void cfg_lexer_include_abort(int level);
+extern int  cfg_include_stack_ptr;
 extern void cfg_scan_fp_begin(FILE *fp);
 extern void cfg_scan_fp_end(void);
 
@@ -1675,7 +1677,7 @@ error:
 
 DLLIMPORT int cfg_parse_fp(cfg_t *cfg, FILE *fp)
 {
-	int ret;
+	int ret, level;
 
 	if (!cfg || !fp) {
 		errno = EINVAL;
@@ -1687,9 +1689,12 @@ DLLIMPORT int cfg_parse_fp(cfg_t *cfg, FILE *fp)
 	if (!cfg->filename)
 		return CFG_PARSE_ERROR;
 
+	level = cfg_include_stack_ptr;
 	cfg->line = 1;
 	cfg_scan_fp_begin(fp);
 	ret = cfg_parse_internal(cfg, 0, -1, NULL);
+	if (ret == STATE_ERROR)
+		cfg_lexer_include_abort(level); /* close include files left open */
 	cfg_scan_fp_end();
 	if (ret == STATE_ERROR)
 		return CFG_PARSE_ERROR;
